@@ -31,6 +31,7 @@ POOL = [
     {"dynamics": [{"expression": "V' = -V/tau + V**2/8 + I", "initial_value": "0"}, {"expression": "I' = -I/2", "initial_value": "1"}]},
     {"dynamics": [{"expression": "g = exp(-t/4)"}]},
     {"dynamics": [{"expression": "x' = -x*y", "initial_value": "1"}, {"expression": "y' = x - 1/2*y", "initial_value": "1/2"}], "parameters": {"tau": "2."}},
+    {"dynamics": [{"expression": "I' = -I/tau", "initial_value": "1"}, {"expression": "V' = -V/tau + g*V**2 + E_L", "initial_value": "0"}]},
     {"dynamics": [{"expression": "x' = 3", "initial_value": "0"}]},
     # failing inputs
     {"dynamics": [{"expression": "x' = -x", "initial_values": {"x": "1", "x'": "0"}}]},               # malformed
@@ -40,8 +41,20 @@ POOL = [
 ]
 
 
+PARAM_VALUES = {"tau": "2.", "g": "0.5", "E_L": "-70", "unused_p": "1"}
+
+
 def gen_call(rng, allow_bad_option=True):
     ind = copy.deepcopy(rng.choice(POOL))
+    if "dynamics" in ind:
+        # parameters block: as in the pool / absent / present but empty / partial / with an unused one
+        q = rng.random()
+        if q < 0.15:
+            ind.pop("parameters", None)
+        elif q < 0.35:
+            ind["parameters"] = {}
+        elif q < 0.5:
+            ind["parameters"] = {k: v for k, v in PARAM_VALUES.items() if rng.random() < 0.5}
     opts = {}
     for k in rng.sample(KEYS, rng.choice([0, 0, 1, 2, 3])):
         opts[k] = rng.choice(OPTVALS[k])
@@ -69,8 +82,12 @@ def impl_history(task):
     from . import impl_worker
     stores, outcomes, modified = [], [], []
     last = None
+    prev = None
     for call in task["calls"]:
         ind = call["indict"]
+        if call.get("reuse_previous_object") and prev is not None:
+            ind = prev          # the user passes the very same dictionary again
+        prev = ind
         before = copy.deepcopy(ind)
         try:
             last = odetoolbox.analysis(ind, **call["flags"])
@@ -141,6 +158,9 @@ def run(ctx):
     hist_tasks, fresh_tasks = [], []
     for k in range(nh):
         calls = [gen_call(rng) for _ in range(rng.randint(0, 6))]
+        for c_ in calls[1:]:
+            if rng.random() < 0.15:
+                c_["reuse_previous_object"] = True
         probe = gen_call(rng, allow_bad_option=False)
         while "dynamics" not in probe["indict"]:
             probe = gen_call(rng, allow_bad_option=False)
@@ -161,7 +181,11 @@ def run(ctx):
         if r.get("outcome") != "Ok" or fr.get("outcome") != "Ok":
             corr_errors.append("history run failed: %s / %s" % (str(r)[:200], str(fr)[:200]))
             continue
-        calls = t["calls"]
+        calls = []
+        for c_ in t["calls"]:
+            if c_.get("reuse_previous_object") and calls:
+                c_ = dict(c_, indict=calls[-1]["indict"])
+            calls.append(c_)
         dist["history_lengths"][str(len(calls) - 1)] = dist["history_lengths"].get(str(len(calls) - 1), 0) + 1
         for c, o in zip(calls, r["outcomes"]):
             dist["call_outcomes"][o] = dist["call_outcomes"].get(o, 0) + 1
